@@ -125,6 +125,9 @@ class Run:
             'skipped': self.skipped, 'violation_classes': self.vclasses, 'known_findings_observed': {k: v['count'] for k, v in self.known_hits.items()},
         }
         cov.update(self.notes)
+        gc_mod = sys.modules.get('harness.graphcases')
+        if gc_mod is not None and getattr(gc_mod, 'PROV_COUNTS', None):
+            cov['graph_provenance'] = dict(gc_mod.PROV_COUNTS)          # how the real graphs were obtained (direct / deepcopy / pickle / .g2o file)
         ev = {'property_id': self.pid, 'tier': self.tier, 'seed': int(self.seed), 'level': 'model_checking', 'coverage': cov,
               'assumptions': self.assumptions, 'wall_s': round(wall, 2), 'violations': len(self.violations)}
         os.makedirs(EVID, exist_ok=True)
